@@ -153,7 +153,7 @@ def canon_lines(toks):
                 stack.append('i')
                 cur.append(t)
             else:
-                stack.append('b')
+                stack.append('m' if any(c.kind == 'ident' and c.text == 'match' for c in cur) else 'b')
                 cur.append(t)
                 flush()
                 indent += 1
@@ -174,6 +174,10 @@ def canon_lines(toks):
             cur.append(t)
             if not in_paren():
                 flush()
+        elif x == ',' and stack and stack[-1] == 'm':
+            # separator between match arms: one arm per line
+            cur.append(t)
+            flush()
         else:
             cur.append(t)
     flush()
